@@ -841,7 +841,7 @@ def _run_operator(case):
                                                            f"{dWe[e]:.12e} (allowed {allow[e]:.2e})", **k))
 
         # polynomial exactness of the path quadrature ("a quadratic W is exact at every rule"): along the straight strain path the
-        # Saint-Venant-Kirchhoff stress is linear in s when K = 0 (exact for 1, 2, 3 points) and of degree <= 5 with the
+        # Saint-Venant-Kirchhoff stress is linear in s when K = 0 (exact for every point count; 1..6 are run, even counts included) and of degree <= 5 with the
         # K (I3 - 1)^2 / 2 term (exact for >= 7 points), so R . du must equal the stored-energy increment to round-off.
         if not gonz and law == "SaintVenantKirchhoff":
             from EasyFEA import Models
@@ -851,7 +851,7 @@ def _run_operator(case):
                 if a == b or not (adm[a] and adm[b] and _admissible(g0, 0.5 * (S[a] + S[b]), dim)):
                     continue
                 un, un1 = S[a], S[b]
-                for m_, nPoints in [(quad_law, 1), (quad_law, 2), (quad_law, 3), (mat, 7), (mat, 9)]:
+                for m_, nPoints in [(quad_law, 1), (quad_law, 2), (quad_law, 3), (quad_law, 4), (quad_law, 5), (quad_law, 6), (mat, 7), (mat, 8), (mat, 9)]:
                     sts = state_of(g0, _vec(un)), state_of(g0, _vec(0.5 * (un + un1))), state_of(g0, _vec(un1))
                     _, Rq, _ = NL.TimeQuadratureStressTensor(m_, *sts, 0.5, nPoints, None)
                     ntr += 1
